@@ -230,6 +230,7 @@ type Ev struct {
 	knownStill    map[string]string
 	notes         []string
 	rule          string
+	required      []string
 	assumptions   []string
 }
 
@@ -356,14 +357,13 @@ func (e *Ev) classCount(c string) int64 {
 	return e.classes[c]
 }
 
-// requireClasses turns an empty generator class into a harness error
+// requireClasses lists histogram classes the generators are built to reach; the
+// driver turns a class that is empty after merging all shards into a harness error
 // ("measure what the generator produces").
 func (e *Ev) requireClasses(cs ...string) {
-	for _, c := range cs {
-		if e.classCount(c) == 0 {
-			e.HarnessError("generator class %q was never produced", c)
-		}
-	}
+	e.mu.Lock()
+	defer e.mu.Unlock()
+	e.required = append(e.required, cs...)
 }
 
 // saveViolation writes the replay file and records the violation.
@@ -434,6 +434,7 @@ func (e *Ev) flush() {
 		"known_still":    e.knownStill,
 		"notes":          e.notes,
 		"rule":           e.rule,
+		"required":       e.required,
 		"assumptions":    e.assumptions,
 		"wall_s":         time.Since(e.start).Seconds(),
 	}
